@@ -302,6 +302,27 @@ func genCases(seed int64, tier string, w *bufio.Writer) (int, error) {
 				}
 			}
 		}
+		// id climbs: the id fields of the successive Schema / Channel records (in file order, wherever they stand) are set to
+		// a series that approaches the top of the 16-bit range - what an id-indexed table sees depends on the ids before
+		for _, rname := range []string{"Schema", "Channel"} {
+			var offs []uint64
+			for _, f := range refmcap.Fields(base) {
+				if f.Rec == rname && f.Name == "id" {
+					offs = append(offs, f.Off)
+				}
+			}
+			for ci, climb := range [][]uint64{{65534, 65535}, {64512, 65535}, {40000, 50000, 60000, 65535}, {65533, 65534, 65535}, {65535, 65534}} {
+				mut := append([]byte{}, base...)
+				for i, off := range offs {
+					putUint(mut, off, 2, climb[i%len(climb)])
+				}
+				for _, ev := range eps {
+					if err := emit(hcase{EP: ev[0].(string), Seek: ev[1].(bool), Data: mut, Base: bn, Rec: rname, Fld: "id", Mag: fmt.Sprintf("climb%d", ci), Kind: "idclimb"}); err != nil {
+						return n, err
+					}
+				}
+			}
+		}
 		// truncations at every record boundary and inside every length field
 		for _, f := range refmcap.Fields(base) {
 			if f.Name != "record_length" {
